@@ -26,6 +26,7 @@ import XdslModel.RiscVRules
 import XdslModel.ArithFloatLogic
 import XdslModel.LLVM
 import XdslModel.X86
+import XdslModel.Lexer
 /-!
 Model registry for the driver: `MODEL <name>` selects a `(state, lineStep)` pair.
 A continuation-passing encoding is used because the state types differ.
@@ -64,6 +65,7 @@ def run? (name : String) : Option Runner :=
   | "arith_float_logic" => some fun k => k ArithFloatLogic.lineStep ()
   | "llvm" => some fun k => k LLVM.lineStep {}
   | "x86" => some fun k => k X86.lineStep {}
+  | "mlir_lexer" => some fun k => k Lexer.lineStep ()
   | _ => none
 
 end Xdsl.Registry
